@@ -1,4 +1,4 @@
-CONSTANTS MaxMsgs = 3  Variants = {1, 2}  Focus = "upgrade"
+CONSTANTS MaxMsgs = 4  Variants = {1, 2}  Focus = "upgrade"
 INIT Init
 NEXT NextCover
 VIEW view
